@@ -92,5 +92,26 @@ Definition any_ok : bool :=
   any_member_ok "try_allocate_impl" "try_allocate_node" "try_allocate_array" ["{{}}"; "alloc"] array_params &&
   any_member_ok "try_deallocate_impl" "try_deallocate_node" "try_deallocate_array" ["{{}}"; "alloc"] darray_params.
 
-Theorem C09_shapes_hold : tracked_ok && aligned_ok && storage_forwards_ok && segregator_ok && resource_adapter_ok && std_allocator_ok && any_ok = true.
+(* ---------- deleters (C09): what was allocated as a node of sizeof(T) / an array of size_ elements is released as exactly that ---------- *)
+Definition is_sizeof_value (a : string) : bool := String.prefix "sizeof(" a && (match index 0 "value_type" a with Some _ => true | None => false end).
+Definition is_alignof_value (a : string) : bool := String.prefix "alignof(" a && (match index 0 "value_type" a with Some _ => true | None => false end).
+Definition dealloc_calls (m : member) : list (string * list string) :=
+  filter (fun x => seqb (fst x) "deallocate_node" || seqb (fst x) "deallocate_array") (calls_of m).
+Definition single_release (c : string) (ok : string * list string -> bool) : bool :=
+  match mem_of c "operator()" with
+  | [m] => match dealloc_calls m with [x] => ok x | _ => false end
+  | _ => false
+  end.
+Definition node_by_type (x : string * list string) : bool :=
+  seqb (fst x) "deallocate_node" && match snd x with [p; s; a] => seqb p "pointer" && is_sizeof_value s && is_alignof_value a | _ => false end.
+Definition array_by_type (x : string * list string) : bool :=
+  seqb (fst x) "deallocate_array" && match snd x with [p; n; s; a] => seqb p "pointer" && seqb n "size_" && is_sizeof_value s && is_alignof_value a | _ => false end.
+Definition node_by_stored (x : string * list string) : bool :=
+  seqb (fst x) "deallocate_node" && match snd x with [p; s; a] => seqb p "pointer" && seqb s "derived_size_" && seqb a "derived_alignment_" | _ => false end.
+Definition deleters_ok : bool :=
+  single_release "allocator_deallocator" node_by_type && single_release "allocator_deleter" node_by_type &&
+  single_release "allocator_deallocator#partial" array_by_type && single_release "allocator_deleter#partial" array_by_type &&
+  single_release "allocator_polymorphic_deallocator" node_by_stored && single_release "allocator_polymorphic_deleter" node_by_stored.
+
+Theorem C09_shapes_hold : tracked_ok && aligned_ok && storage_forwards_ok && segregator_ok && resource_adapter_ok && std_allocator_ok && any_ok && deleters_ok = true.
 Proof. vm_compute. reflexivity. Qed.
